@@ -86,6 +86,23 @@ func corpus() []*Scenario {
 	cs(sc, "has_text", 0)
 	out = append(out, sc)
 
+	// the timeout exit loops back to the wait and it times out again: the run has two wait_timed_out events and
+	// RouteTimeout records the time of the FIRST one (its loop does not stop at the last), so the second result has the
+	// same value as the first and no run_result_changed event is logged
+	sc = base("switch")
+	std(sc, 4)
+	sc.Default = 3
+	sc.Trigger, sc.Wait, sc.TimeoutCat, sc.Resume, sc.SecondTimeout = "manual", true, 2, "timeout", true
+	sc.Exits[2].Dest = -2
+	cs(sc, "has_text", 0)
+	out = append(out, sc)
+	sc = base("random")
+	std(sc, 3)
+	sc.ResultName = ""
+	sc.Trigger, sc.Wait, sc.TimeoutCat, sc.Resume, sc.SecondTimeout = "manual", true, 1, "timeout", true
+	sc.Exits[1].Dest = -2
+	out = append(out, sc)
+
 	// duplicate category names with different exits; duplicate category UUID (the first one is found)
 	sc = base("switch")
 	std(sc, 5)
